@@ -8,6 +8,32 @@ TB = ('rustc name/type resolution and MIR construction; pinned dependency crates
       '(typst_syntax::parse deterministic and total, error-free trees obey the grammar table; pretty renders text verbatim and indents by the sum of nest amounts)')
 
 CLAIMS = {
+    'C01': dict(
+        technique='kind-directed abstract evaluation of MIR (constant propagation over the finite SyntaxKind lattice) of every dispatcher and child-dispatch loop, per grammar child kind; truth tables for paren removal / optional parens; who-may-reorder',
+        text='Partial: decides total type-directed dispatch, that no significant child kind is dropped at any dispatch site, spelling agreement, the order/disambiguation clauses. '
+             'Quantifies over (dispatch site x grammar kind) pairs instead of inputs, including pairs no fixture contains. Does not decide the round trip. Found and repaired the in / not in chain defect.',
+        design_ref='DESIGN.md §2 C01'),
+    'C04': dict(
+        technique='abstract evaluation of the two-child sequence <LineComment, Space+nl> at every comment-emitting site (state carried between iterations), of the list printer under the forced layout, and of the optional-delimiter helpers per mode',
+        text='Partial: decides that a line comment is always followed by a hard line break before the next token and that optional delimiters are paired under one group with the body converted in the matching mode. '
+             'Token fusion and width-dependent effects are not decided. Found and repaired F8.',
+        design_ref='DESIGN.md §2 C04'),
+    'C06': dict(
+        technique='kind-directed abstract evaluation per comment kind at every dispatch loop; whole-path evaluation of converters for typed-accessor bypasses; string-transformer inventory of the comment converter',
+        text='Partial: decides that every comment child reaches an emitting branch on every path, that converters which never walk their children are comment-free or guarded, that comment text is only de-indented, and the line-comment discipline. Found and repaired F4.',
+        design_ref='DESIGN.md §2 C06'),
+    'C08': dict(
+        technique='abstract evaluation of the two stages of the markup converter per child kind and on the <Text, Parbreak> sequence; dominance/provenance of the break-suppressed context; leaf-converter evaluation',
+        text='Partial: decides that no soft break or removal can happen between prose pieces, paragraph breaks keep their line-feed count, prose leaves are emitted byte for byte, mixed lines are converted break-suppressed.',
+        design_ref='DESIGN.md §2 C08'),
+    'C09': dict(
+        technique='abstract evaluation of the Math / MathDelimited converters per child kind incl. peeled edge spaces; context provenance; leaf evaluation of the Space converter',
+        text='Partial: decides that a math Space maps to exactly space / hard line by its own text, is never dropped or created in the non-exempt constructs, and that breaks are suppressed below Math. Found and repaired F9.',
+        design_ref='DESIGN.md §2 C09'),
+    'C10': dict(
+        technique='leaf-converter abstract evaluation, per-kind evaluation of the raw converter, must-pass-through edges for the verbatim guard, taint of the rendered text',
+        text='Partial: literal leaves reach the document byte for byte, raw text is rebuilt child by child, multi-line inline raw is copied verbatim, and transformers downstream of rendering are inventoried (one known finding: trailing-blank stripping, which C11 demands).',
+        design_ref='DESIGN.md §2 C10'),
     'C05': dict(
         technique='guarded-by (dominating erroneous() edge), partial-operation inventory with discharge rules over MIR Assert terminators and panicking callees, loop-shape and size-change (descending recursion) analysis',
         text='Every panic site in typstyle\'s own code reachable from a whole-document entry is an obligation discharged by a dominating kind/bound guard, a size provenance, a benign class or a '
